@@ -226,6 +226,9 @@ def run_program(prog, extra_formatters=None, reporters=None, config_hook=None, w
             key = key_of(args[0] if args else None)
             raises = (hname, key) in faults
             log.append(["hook", hname, key, raises])
+            if hname == "before_scenario" and cfg.get("continue_via_hook") and cfg.get("continue_after_failed"):
+                # the documented recipe: switch the flag on for this scenario from its before_scenario hook
+                args[0].continue_after_failed_step = True
             for (h2, k2, cid, craises) in hook_cleanups:
                 if h2 == hname and str(k2) == key:
                     context.add_cleanup(mk_cleanup(cid, craises))
@@ -296,6 +299,8 @@ def run_program(prog, extra_formatters=None, reporters=None, config_hook=None, w
         et = expr_text(ex)
         if et is not None:
             args += ["--tags", et]
+    if cfg.get("wip_mode"):
+        args.append("--wip")        # only @wip scenarios (AND-ed with any --tags), stop at the first failure, no capture
     for a in cfg.get("args", []):
         args.append(a)
     sink = io.StringIO()
@@ -309,9 +314,10 @@ def run_program(prog, extra_formatters=None, reporters=None, config_hook=None, w
         features = []
         for f in prog["features"]:
             text = render_feature(f)
-            features.append(parse_feature(text, filename="F%d.feature" % f["id"]))
+            # cfg["file_infix"]: feature file names with further dots ("F1.part.feature")
+            features.append(parse_feature(text, filename="F%d%s.feature" % (f["id"], cfg.get("file_infix", ""))))
         old_flag = Scenario.continue_after_failed_step
-        Scenario.continue_after_failed_step = bool(cfg.get("continue_after_failed", False))
+        Scenario.continue_after_failed_step = bool(cfg.get("continue_after_failed", False)) and not cfg.get("continue_via_hook")
         try:
             runner = ModelRunner(config, features, step_registry=registry)
             runner.hooks = hooks
